@@ -548,7 +548,8 @@ def _gradient_derived_vars(facts, bodies):
                                     if v not in g:
                                         g.add(v)
                                         changed = True
-                    if callee(n) in ("alloc::vec::Vec::<T, A>::push", "alloc::vec::Vec::<T, A>::insert", "alloc::vec::Vec::<T, A>::extend") and len(n["args"]) >= 2:
+                    if callee(n) in ("alloc::vec::Vec::<T, A>::push", "alloc::vec::Vec::<T, A>::insert", "alloc::vec::Vec::<T, A>::extend", "core::iter::traits::collect::Extend::extend",
+                                     "alloc::vec::Vec::<T, A>::extend_from_slice") and len(n["args"]) >= 2:
                         val = n["args"][-1]
                         if _mentions_gradient(facts, val) or any(x.get("k") in ("VarRef", "UpvarRef") and x["v"] in g for x in walk(val)):
                             rv = var_of(peel(n["args"][0]))
@@ -558,7 +559,18 @@ def _gradient_derived_vars(facts, bodies):
                 # the closure handed to an adaptor of a gradient-derived Option / iterator sees the gradient (or its elements)
                 if n.get("k") == "Call" and len(n.get("args") or []) >= 2 and ((callee(n) or "").startswith("core::option::Option::<") or (callee(n) or "").startswith("core::iter::traits::iterator::Iterator::")):
                     recv_ = n["args"][0]
-                    if _mentions_gradient(facts, recv_) or any(x.get("k") in ("VarRef", "UpvarRef") and x["v"] in g for x in walk(recv_)):
+                    is_opt = (callee(n) or "").startswith("core::option::Option::<")
+                    direct_read = any(x.get("k") == "Call" and resolved(x) in GRAD_READS for x in walk(recv_))      # not through a closure of an upstream adaptor
+                    def _outside_closures(e_):
+                        st_ = [e_]
+                        while st_:
+                            x_ = st_.pop()
+                            if not isinstance(x_, dict):
+                                continue
+                            yield x_
+                            if x_.get("k") != "Closure":
+                                st_.extend(F.kids(x_))
+                    if (is_opt and direct_read) or any(x.get("k") in ("VarRef", "UpvarRef") and x["v"] in g for x in _outside_closures(recv_)):
                         for a_ in n["args"][1:]:
                             a0_ = strip(a_)
                             if isinstance(a0_, dict) and a0_.get("k") == "Closure":
@@ -1023,6 +1035,7 @@ def r44_stateless_derivative(facts):
                         return True
             return False
         verdict = None
+        destructive = None
         for nb in bodies:
             for node in walk(facts.root(nb)):
                 if node.get("k") == "Call" and node["args"]:
@@ -1034,11 +1047,20 @@ def r44_stateless_derivative(facts):
                         inner = peel(inner["args"][0])
                     if base in cellvars and len(node["args"]) > 1 and any(mentions_adjoint(a) for a in node["args"][1:]):
                         verdict = (nb, node)
+                    # a destructive read (take / replace / swap) of captured state: the first invocation empties what the second one needs
+                    cn_ = callee(node) or ""
+                    if base in cellvars and cn_.rsplit("::", 1)[-1] in ("take", "replace", "swap", "replace_with") and (cn_.startswith("core::cell::") or cn_.startswith("core::mem::")) \
+                            and (node.get("ty") or "") not in ("()",):
+                        destructive = destructive or (nb, node)
                 if node.get("k") in ("Assign", "AssignOp"):
                     base = var_of(node["l"])
                     if base in cellvars and mentions_adjoint(node["r"]):
                         verdict = (nb, node)
-        if verdict:
+        if destructive and not verdict:
+            c.bad("closure:%s" % cb["def"], loc(destructive[0], destructive[1]),
+                  "the derivative closure takes a value out of captured state (`%s`) and uses it: the first pass through this node leaves the state empty, so a second pass "
+                  "(the same result again, or another result sharing this node) no longer computes the same derivative" % show(destructive[1])[:70])
+        elif verdict:
             c.bad("closure:%s" % cb["def"], loc(verdict[0], verdict[1]),
                   "the derivative closure stores a value computed from its adjoint into captured state (`%s`): a second pass through this node sees the first pass's delta, "
                   "so gradients are no longer a linear function of the seed of the current pass" % show(verdict[1])[:70])
@@ -1049,6 +1071,150 @@ def r44_stateless_derivative(facts):
 
 
 # ------------------------------------------------------------------ R46
+
+def _r46_ctor_check(facts, c, adt, fname, where0):
+    """every constructor of the optimizer stores its rate argument in the rate field as given"""
+    n_ctor = 0
+    for b in facts.bodies:
+        root = facts.root(b)
+        if root is None:
+            continue
+        pvars = {v for p in facts.params(b) if p.get("pat") for v, _, _, _ in pat_bindings(p["pat"])}
+        for x in walk(root):
+            if x.get("k") == "Adt" and x.get("adt") == adt:
+                for f_ in x.get("fields") or []:
+                    if f_.get("name") != fname:
+                        continue
+                    n_ctor += 1
+                    e = strip(f_["e"])
+                    cinst = "rate:%s" % b["def"]
+                    src = e
+                    for _ in range(6):      # clone / copy / borrow / deref of a place are the place's value
+                        src = peel(src)
+                        if isinstance(src, dict) and src.get("k") == "Call" and (callee(src) or "").endswith("::clone") and len(src.get("args") or []) == 1:
+                            src = src["args"][0]
+                        else:
+                            break
+                    s_root, s_chain = field_chain(src) if isinstance(src, dict) else (None, None)
+                    if e.get("k") in ("VarRef", "UpvarRef") and e["v"] in pvars:
+                        c.ok(cinst, loc(b, f_["e"]), "the rate field is the constructor's argument as given")
+                    elif s_chain == [fname] and isinstance(s_root, dict) and adt in (s_root.get("ty") or ""):
+                        c.ok(cinst, loc(b, f_["e"]), "the rate field is copied from the same field of another %s" % adt.split("::")[-1])
+                    elif e.get("k") == "Literal" or (e.get("k") == "Unary" and strip(e.get("e") or {}).get("k") == "Literal"):
+                        c.ok(cinst, loc(b, f_["e"]), "the rate field is a constant (no argument to carry)")
+                    elif any(y.get("k") in ("VarRef", "UpvarRef") and y["v"] in pvars for y in walk(e)):
+                        c.bad(cinst, loc(b, f_["e"]), "the constructor stores `%s`, not its rate argument as given: update then steps by a different rate than the one requested "
+                              "(e.g. a negative rate loses its sign)" % show(e)[:60])
+                    else:
+                        c.unk(cinst, loc(b, f_["e"]), "where the stored rate `%s` comes from is not recognised" % show(e)[:60])
+    if not n_ctor:
+        c.unk("rate:%s" % adt, where0, "no construction of %s found in the crate" % adt)
+
+
+def _r46_map_form(facts, c, u, inst, where0, fl):
+    """the step written as `values.zip(gradients).map(|(x, g)| x - rate * g).collect()` (possibly in a helper function): the closure is read in
+    the algebra, and which side of the zip holds the old values / the gradients is decided by where the two buffers were filled"""
+    from .deriv_rules import Forward, Env, Abstain
+    from .symalg import Unsupported
+    bodies = _update_bodies(facts, u)
+    gvars = _gradient_derived_vars(facts, bodies)
+    by_def = {b["def"]: b for b in bodies}
+    IT_ = "core::iter::traits::iterator::Iterator::"
+    found = []
+    for nb in bodies:
+        for n in walk(facts.root(nb)):
+            if not (n.get("k") == "Call" and callee(n) == IT_ + "map" and len(n["args"]) == 2):
+                continue
+            clo = strip(n["args"][1])
+            if clo.get("k") != "Closure":
+                continue
+            cb = facts.body(clo["closure"])
+            if cb is None or (cb.get("closure_output") or "") != fl:
+                continue
+            src = peel(n["args"][0])
+            hops = 0
+            while isinstance(src, dict) and src.get("k") == "Call" and callee(src) in (IT_ + "copied", IT_ + "cloned", "core::iter::traits::collect::IntoIterator::into_iter") and hops < 4:
+                src = peel(src["args"][0])
+                hops += 1
+            if not (isinstance(src, dict) and src.get("k") == "Call" and callee(src) == IT_ + "zip" and len(src["args"]) == 2):
+                continue
+            found.append((nb, n, cb, src))
+    if len(found) != 1:
+        return False
+    nb, n, cb, zp = found[0]
+
+    def root_var(e):
+        e = peel(e)
+        hops = 0
+        while isinstance(e, dict) and e.get("k") == "Call" and e.get("args") and hops < 6 and (callee(e) or "").rsplit("::", 1)[-1] in ("iter", "into_iter", "copied", "cloned", "iter_mut", "deref", "as_slice", "borrow", "as_ref"):
+            e = peel(e["args"][0])
+            hops += 1
+        return var_of(e) if isinstance(e, dict) and e.get("k") in ("VarRef", "UpvarRef") else None
+    sides = [root_var(zp["args"][0]), root_var(zp["args"][1])]
+    if None in sides:
+        c.unk(inst, loc(nb, n), "the two zipped buffers of the mapped step are not plain variables")
+        return True
+    # through a helper's parameters to the buffers of the caller
+    owner = facts.body(nb.get("root", nb["def"])) or nb
+    pmap = {}
+    if owner["kind"] in ("Fn", "AssocFn") and owner["def"] != u["def"]:
+        ps = [p_ for p_ in facts.params(owner) if p_.get("pat")]
+        calls = [x for b2 in bodies for x in walk(facts.root(b2)) if x.get("k") == "Call" and resolved(x) == owner["def"]]
+        if len(calls) != 1:
+            c.unk(inst, loc(nb, n), "the helper that performs the step is called from %d places" % len(calls))
+            return True
+        for p_, a in zip(ps, calls[0]["args"]):
+            if p_["pat"].get("k") == "Binding":
+                pmap[p_["pat"]["v"]] = a
+    roles = []
+    for sv in sides:
+        arg = pmap.get(sv)
+        v = root_var(arg) if arg is not None else sv
+        if v is None:
+            roles.append(None)
+        elif v in gvars:
+            roles.append("g")
+        else:
+            # filled from the parameters' values?
+            filled = any(x.get("k") == "Call" and callee(x) in ("core::iter::traits::collect::Extend::extend", "alloc::vec::Vec::<T, A>::extend_from_slice", "alloc::vec::Vec::<T, A>::push")
+                         and var_of(x["args"][0]) == v and any(y.get("k") == "Call" and resolved(y) == "corgi::array::Array::values" for y in walk(x["args"][1]))
+                         for b2 in bodies for x in walk(facts.root(b2)))
+            roles.append("old" if filled else None)
+    if sorted(r or "?" for r in roles) != ["g", "old"]:
+        c.unk(inst, loc(nb, n), "which of the two zipped buffers holds the old values and which the gradients is not read (%s)" % roles)
+        return True
+    fw = Forward(facts)
+    fw.ev.uninterp = True
+    env = Env(None)
+    ps = [p_ for p_ in facts.params(cb) if p_.get("pat")]
+    binds = [v for p_ in ps for v, _, _, path in pat_bindings(p_["pat"])]
+    if len(binds) != 2:
+        c.unk(inst, loc(nb, n), "the closure of the mapped step does not bind exactly (value, gradient)")
+        return True
+    for v, role in zip(binds, roles):
+        env[v] = ("s", fw.alg.atom(role))
+    try:
+        for pv, a in pmap.items():
+            if pv not in sides:
+                env[pv] = fw.ev.ev(a, Env(None))
+        val = fw.ev.ev(facts.root(cb), env)
+        if val[0] != "s":
+            raise Abstain(str(val[1])[:100] if val[0] == "unk" else val[0])
+        new = val[1]
+        rates = sorted(a for a in new.atoms() if a.startswith("f:"))
+        if len(rates) != 1:
+            raise Abstain("the step does not use exactly one field of the optimizer (%s)" % rates)
+        want = fw.alg.atom("old") - fw.alg.atom(rates[0]) * fw.alg.atom("g")
+        if new.equals(want):
+            c.ok(inst, loc(nb, n), "each element becomes old - %s x gradient (mapped over the zipped buffers)" % rates[0][2:])
+        else:
+            c.bad(inst, loc(nb, n), "the update computes %r for each element (`old` = the buffer filled from the parameters' values, `g` = the buffer filled from their gradients); "
+                  "gradient descent is %r" % (new, want))
+    except (Abstain, Unsupported, RecursionError) as ex:
+        c.unk(inst, loc(nb, n), "the mapped step is outside the algebra (%s)" % ex)
+    return True
+
+
 
 def r46_update_formula(facts):
     """UPDATE-FORMULA: the element-wise store in Optimizer::update computes old - rate * gradient with `rate` a field of the optimizer, and every constructor of the optimizer stores its rate argument in that field as given"""
@@ -1068,10 +1234,36 @@ def r46_update_formula(facts):
                     if l.get("k") == "Deref" and (l.get("ty") or "") == fl and var_of(l["e"]):
                         stores.append((nb, n, var_of(l["e"])))
         inst = "formula:%s" % u["def"]
-        if len(stores) != 1:
+        if len(stores) == 0 and _r46_map_form(facts, c, u, inst, where0, fl):
+            pass
+        elif len(stores) != 1:
             c.unk(inst, where0, "expected one element-wise store `*x -= ..` through a `&mut Float` in update, found %d" % len(stores))
             continue
+        if len(stores) != 1:
+            nb, n, rates = u, facts.root(u), []
+            for b2 in _update_bodies(facts, u):
+                for x2 in walk(facts.root(b2)):
+                    if x2.get("k") == "Field" and (x2.get("ty") or "") == fl and (x2.get("adt") or "") == (u.get("impl_self") or "").split("<")[0]:
+                        rates = ["f:" + x2["name"]]
+            if not rates:
+                continue
+            # fall through to the constructor check with the rate field found in the mapped form
+            adt = u.get("impl_self")
+            fname = rates[0][2:]
+            _r46_ctor_check(facts, c, adt, fname, where0)
+            continue
         nb, n, xv = stores[0]
+        # every element is stepped: the store is not skipped for some elements (a threshold on the size of the step, a sign test)
+        for n_, ctx_ in F.walk_ctx(facts.root(nb)):
+            if n_ is n:
+                gates = [fr for fr in ctx_ if fr[0] in ("if", "guard", "after", "logic") or (fr[0] == "arm" and not str(fr[1].get("source", "")).startswith("ForLoopDesugar"))]
+                # only conditions on the NUMBERS of one element (a float-typed sub-expression): a per-parameter gate (`if let Some(g) = ..`) is R42's business
+                gates = [fr for fr in gates if isinstance(fr[1], dict) and fr[1].get("cond") is not None and strip(fr[1]["cond"]).get("k") != "Let"
+                         and any((x.get("ty") or "") in (fl, "&" + fl, "&mut " + fl) for x in walk(fr[1]["cond"]))]
+                if gates:
+                    cnd_ = gates[0][1].get("cond") if isinstance(gates[0][1], dict) else None
+                    c.bad(inst + "#every-element", loc(nb, n), "the element-wise step is applied only under the condition `%s`: elements for which it fails keep their old value although gradient descent "
+                          "moves every element by rate x gradient" % (show(cnd_)[:60] if cnd_ is not None else "?"))
         fw = Forward(facts)
         fw.ev.uninterp = True
         env = Env(None)
@@ -1124,44 +1316,7 @@ def r46_update_formula(facts):
         except (Abstain, Unsupported, RecursionError) as ex:
             c.unk(inst, loc(nb, n), "the element-wise store is outside the algebra (%s)" % ex)
             continue
-        # the constructors of this optimizer
-        adt = u.get("impl_self")
-        fname = rates[0][2:]
-        n_ctor = 0
-        for b in facts.bodies:
-            root = facts.root(b)
-            if root is None:
-                continue
-            pvars = {v for p in facts.params(b) if p.get("pat") for v, _, _, _ in pat_bindings(p["pat"])}
-            for x in walk(root):
-                if x.get("k") == "Adt" and x.get("adt") == adt:
-                    for f_ in x.get("fields") or []:
-                        if f_.get("name") != fname:
-                            continue
-                        n_ctor += 1
-                        e = strip(f_["e"])
-                        cinst = "rate:%s" % b["def"]
-                        src = e
-                        for _ in range(6):      # clone / copy / borrow / deref of a place are the place's value
-                            src = peel(src)
-                            if isinstance(src, dict) and src.get("k") == "Call" and (callee(src) or "").endswith("::clone") and len(src.get("args") or []) == 1:
-                                src = src["args"][0]
-                            else:
-                                break
-                        s_root, s_chain = field_chain(src) if isinstance(src, dict) else (None, None)
-                        if e.get("k") in ("VarRef", "UpvarRef") and e["v"] in pvars:
-                            c.ok(cinst, loc(b, f_["e"]), "the rate field is the constructor's argument as given")
-                        elif s_chain == [fname] and isinstance(s_root, dict) and adt in (s_root.get("ty") or ""):
-                            c.ok(cinst, loc(b, f_["e"]), "the rate field is copied from the same field of another %s" % adt.split("::")[-1])
-                        elif e.get("k") == "Literal" or (e.get("k") == "Unary" and strip(e.get("e") or {}).get("k") == "Literal"):
-                            c.ok(cinst, loc(b, f_["e"]), "the rate field is a constant (no argument to carry)")
-                        elif any(y.get("k") in ("VarRef", "UpvarRef") and y["v"] in pvars for y in walk(e)):
-                            c.bad(cinst, loc(b, f_["e"]), "the constructor stores `%s`, not its rate argument as given: update then steps by a different rate than the one requested "
-                                  "(e.g. a negative rate loses its sign)" % show(e)[:60])
-                        else:
-                            c.unk(cinst, loc(b, f_["e"]), "where the stored rate `%s` comes from is not recognised" % show(e)[:60])
-        if not n_ctor:
-            c.unk("rate:%s" % adt, where0, "no construction of %s found in the crate" % adt)
+        _r46_ctor_check(facts, c, u.get("impl_self"), rates[0][2:], where0)
     return c
 
 
@@ -1418,6 +1573,36 @@ def r53_replace_gradient_clears(facts):
             c.unk(inst, loc(b, clears[0]), "the slot is emptied under a condition")
         else:
             c.ok(inst, loc(b, clears[0]), "the gradient slot is emptied (replace / take with None) unconditionally")
+    # ... and only the optimizer takes gradients: library code that clears or replaces a gradient anywhere else (the model's forward or
+    # backward, a layer) throws away what earlier passes accumulated for the next update
+    upd = set()
+    for u in facts.fns():
+        if u.get("impl_trait_def") == "corgi::optimizer::Optimizer" and u.get("name") == "update":
+            upd |= {nb["def"] for nb in _update_bodies(facts, u)}
+    n_calls = 0
+    # the passes of the training loop: the model's forward / backward, the layers' forward, and the crate-local functions they call
+    from .repr_rules import callees_closure
+    passes = set()
+    for x in facts.fns():
+        if (x.get("name") in ("forward", "backward") and (x.get("impl_self") or "").startswith("corgi::model::Model") and x.get("impl_trait_def") is None) \
+                or (x.get("name") == "forward" and x.get("impl_trait_def") == "corgi::layer::Layer"):
+            passes |= {y["def"] for y in callees_closure(facts, x, depth=2)}
+    for b in facts.bodies:
+        root = facts.root(b)
+        if root is None or b.get("impl_self") == ARRAY and b.get("name") in ("replace_gradient", "gradient_mut"):
+            continue
+        rb = facts.body(b.get("root", b["def"])) or b
+        for n in walk(root):
+            if n.get("k") == "Call" and resolved(n) in ("corgi::array::Array::replace_gradient", "corgi::array::Array::gradient_mut"):
+                n_calls += 1
+                inside = b["def"] in upd or rb["def"] in upd
+                if not inside and b["def"] not in passes and rb["def"] not in passes:
+                    c.ok("take-site:%s" % rb["def"], loc(b, n), "a gradient accessor used outside the passes of the training loop (an entry point of its own)", nontrivial=False)
+                    continue
+                c.check(inside, "take-site:%s" % rb["def"], loc(b, n), "gradients are taken inside Optimizer::update",
+                        "`%s` is called in %s: the forward and backward passes of the training loop never clear or replace a gradient (what earlier backward passes accumulated "
+                        "for the next update would be lost)" % (resolved(n).rsplit("::", 1)[-1], rb["def"]))
+    c.count("gradient-taking call sites in the library", n_calls)
     return c
 
 
